@@ -41,7 +41,14 @@ def showReadBuf (r : RawBuf) (rest : Nat) : String :=
   | none => "panic"
   | some ops =>
     let chunks := String.intercalate "," (r.headers.map (fun h => toString h.1))
-    s!"buf col={utf8 r.column} chunks={chunks} ops={commaOps ops} rest={rest}"
+    -- what `Range` shows per chunk: the sections of the chunk, decoded from their header values
+    match sectionsOf r.headers r.data with
+    | none => "panic"
+    | some secs =>
+      let cs := (r.headers.map (fun h => h.1)).eraseDups
+      let ranges := String.intercalate ";" (cs.map (fun c =>
+        s!"{c}:" ++ String.intercalate ",|," ((secs.filter (fun s => s.chunk == c)).map (fun s => commaOps s.ops))))
+      s!"buf col={utf8 r.column} chunks={chunks} ops={commaOps ops} ranges={ranges} rest={rest}"
 
 /-- what `Range(update, commit.Chunk)` shows of one update buffer of a commit read back -/
 def showCommitBuf (r : RawBuf) : String :=
@@ -74,6 +81,25 @@ def step (st : St) (line : String) : St × String :=
       | some b => ({ st with buf := b }, "ok")
       | none => (st, "no-op")
     | _, _, _ => (st, "bad-op")
+  | ["swaps", c, k1, kind1, hex1, k2, kind2, hex2] =>
+    -- two swaps during one Range pass (k1 < k2): both are checked first, then applied in order — the
+    -- positions of the chunk's ops do not move (a resizing swap appends at the end)
+    match c.toNat?, k1.toNat?, parseVal kind1 hex1, k2.toNat?, parseVal kind2 hex2 with
+    | some c, some k1, some v1, some k2, some v2 =>
+      if k1 ≥ k2 then (st, "bad-op") else
+      let opsC := ((st.buf.secs.filter (fun s => s.chunk = c)).map Sec.ops).flatten
+      let allowed := fun (k : Nat) (v : Val) => match opsC[k]?, v with
+        | some ⟨_, _, .fixed c1 _⟩, .fixed c2 _ => c1 == c2 && c1 != 0
+        | some ⟨_, _, .str _⟩, .str _ => true
+        | _, _ => false
+      if !(allowed k1 v1 && allowed k2 v2) then (st, "no-op") else
+      match st.buf.swapAt c k1 v1 with
+      | some b1 =>
+        match b1.swapAt c k2 v2 with
+        | some b2 => ({ st with buf := b2 }, "ok")
+        | none => (st, "no-op")
+      | none => (st, "no-op")
+    | _, _, _, _, _ => (st, "bad-op")
   | ["snapres", rec, op, ws, cp] =>
     -- one Snapshot call of the resource model, with the clean-up actions of the repaired code
     let r0 : ColumnVerif.SnapRes.Res := ⟨rec == "1", 10, 10⟩
